@@ -13,7 +13,8 @@ import (
 // C06 (schedule part): once a unary call or a stream send has returned to the
 // caller, the library no longer reads the caller's message. Every read the
 // library makes of a message goes through the channel's Cloner; a recording
-// cloner logs (reader task, vector clock) for each, the harness logs the vector
+// cloner logs (reader task, vector clock) for each -- and likewise for each write
+// into a destination the caller passed to Invoke / RecvMsg -- the harness logs the vector
 // clock of the event "the call returned to the caller", and the oracle requires
 // read happens-before return for every schedule -- a read that is concurrent
 // with or after the return is a use-after-return (a data race in the
@@ -57,6 +58,7 @@ func (r *recCloner) note(op string, in interface{}) {
 
 func (r *recCloner) Copy(out, in interface{}) error {
 	r.note("Copy", in)
+	r.note("Copy(dest)", out)
 	return r.inner.Copy(out, in)
 }
 
@@ -130,6 +132,12 @@ func c06Oracle(sc *Scenario, rec *Rec, s *mc.Sched) []mc.Violation {
 			who := "library-goroutine"
 			if strings.Contains(rd.Task, "(c") {
 				who = "client-task"
+			}
+			if rd.Op == "Copy(dest)" {
+				out = append(out, mc.Violation{Clause: "write-after-return",
+					Obs:    fmt.Sprintf("the caller's destination message is written by a %s, not ordered before the return of %s", who, o.Call),
+					Detail: map[string]interface{}{"message": o.Tag, "writer": rd.Task}})
+				continue
 			}
 			out = append(out, mc.Violation{Clause: "read-after-return",
 				Obs:    fmt.Sprintf("%s of the caller's %s message by a %s is not ordered before the return of %s", rd.Op, o.Tag[1:2], who, o.Call),
